@@ -80,7 +80,7 @@ def run_check(engine, prop, tier, master_seed, tasks, workers, level="exploratio
               time_budget=None, min_keep=12):
     """tasks: list of {'seed': int} / {'scenario': ...}. Returns exit code."""
     t0 = wall()
-    cfg = {"run_timeout": 150.0, "ref_timeout": 90.0}
+    cfg = {"run_timeout": 100.0, "ref_timeout": 90.0}
     if time_budget:
         cfg["deadline"] = t0 + time_budget
     # a handful of samples are kept with their full traces for the evidence file
